@@ -345,9 +345,10 @@ func (d *Driver) report() int {
 		if strings.HasPrefix(fn, "instantiation does not type-check") {
 			prefix, fn = "rt:", "typecheck" // the whole instantiation is gone
 		}
-		if !d.inventoryHasPrefix(prop, prefix) {
-			continue
-		}
+		// (every function that reaches this point was selected because its contract carries clauses of this property or
+		// it calls something that does: whether or not the inventory already lists obligations of it, "cannot be
+		// verified any more" is never a pass. On the unchanged tree no function is outside the subset.)
+		_ = prefix
 		name := target + ":" + fn + ":contract-applies"
 		rp := filepath.Join(d.Verif, "replays", sanitize(name)+".json")
 		b, _ := json.MarshalIndent(map[string]any{"obligation": name, "result": "not-generated", "reason": "the function can no longer be verified against its contract in this instantiation: " + np, "reproduced_on_real_code": false}, "", " ")
@@ -530,6 +531,7 @@ func (d *Driver) writeEvidence(prop string, results []oblResult, discharged int,
 		"slow_queries":             slow,
 		"queries_retried_with_longer_timeout": d.retried,
 		"not_proved":               d.notProved,
+		"frontend_copy_unreachable": d.unreachable,
 		"known_findings_printed":   known,
 		"obligation_results":       results,
 		"explanation": "every obligation is generated on this run from /repo's working tree (runtime template instantiated by the real builder; ast/builder parsed in place) against the //@ contracts, one SMT query per (obligation, path); discharged = all paths unsat",
@@ -576,10 +578,10 @@ func levelOf(prop string) string {
 func assumptionsFor(prop string) []string {
 	extra := map[string][]string{
 		"C12": {"Memoize(false): a memo hit replays no failure events, so with Memoize(true) the final message can differ (defect F14, DESIGN 16.3); the global maximum over the run is an induction over the per-function obligations (meta)"},
-		"C07": {"StronglyConnectedComponents/FindCyclesInSCC: contracts assumed at the call sites; checked only by the BOUNDED stand-in (all directed graphs with <= 4 vertices)", "front-end guarantees TreeWF()/CodeWF() (C03 is not applicable)"},
+		"C07": {"scc.go is under contract for shape and safety (components are fresh non-empty sets of non-empty names; members of a component with several members have outgoing edges; no panic): PROVED. That the components are the classes of mutual reachability and that every simple cycle is enumerated is only checked by the BOUNDED stand-in (all directed graphs with <= 4 vertices); termination of the two recursive closures is not claimed", "front-end guarantees TreeWF()/CodeWF()/NamesWF()/RuleNamesWF() (non-empty rule and reference names) are assumed (C03 is not applicable)"},
 		"C08": {"'the leader lies on every cycle of its component' is a BOUNDED stand-in (all directed graphs with <= 4 vertices), not a proof"},
-		"C19": {"SCC / cycle enumeration / leader determinism: BOUNDED stand-in (all directed graphs with <= 4 vertices, several vertex orders, repeated calls), not a proof", "ComputeNullables' order dependence inside cycles (F11) is not decided"},
-		"C13": {"front-end guarantees TreeWF()/CodeWF() are assumed (C03 not applicable); strings.Reader model assumed; termination of the optimizer fixpoint, of NullableVisit and of the front-end parser itself not under contract"},
+		"C19": {"inst[v]:rebuild-identical obligations are exhaustive over the 48 probe builds (each repeated once in the same process), not a proof over all grammars", "SCC / cycle enumeration / leader determinism: BOUNDED stand-in (all directed graphs with <= 4 vertices, several vertex orders, repeated calls), not a proof", "ComputeNullables' order dependence inside cycles (F11) is not decided"},
+		"C13": {"front-end guarantees TreeWF()/CodeWF()/NamesWF()/RuleNamesWF() are assumed (C03 not applicable); strings.Reader model assumed; termination of the optimizer fixpoint, of NullableVisit (exponential in the depth of the rule-reference DAG: DESIGN 17.5, D5), of the recursive closures of scc.go and of the front-end parser itself not under contract", "inst[v]:builds obligations are exhaustive over the 48 probe grammar/flag combinations of the instantiation harness, not a proof over all grammars"},
 		"C04": {"strings.Reader is abstracted to a stream of runes with an assumed progress/EOF contract"},
 		"C06": {"user code predicates are functions of their own labels and the position (C06's hypothesis, stated as the assumed contract of the run field)"},
 		"C18": {"user code blocks do not keep c.state beyond the block: the live state map is cleared and pooled when the block returns (defect F17, DESIGN 16.3: the project's own test grammar returns c.state); no schedule is explored, confinement implies race freedom by a standard meta-theorem"},
